@@ -48,6 +48,12 @@ CHECKS = {
         note="Partial: parse_print (round trip) and parse_range (well-formed trees) are NOT proved as theorems (an LR-correctness proof is out of reach here); they are decided by the oracles on generated inputs. Trusted: Lean kernel, fact extractor, harness, PLY's table construction is not trusted (tables are extracted and executed by the model), astropy for time values.",
         design="DESIGN.md §5 C14",
     ),
+    "C16": dict(
+        technique="Lean 4 proof (list induction: paging with a decrementing limit = filter-then-take for every page size; sorted-permutation lemmas) + page-by-page correspondence with the real Postprocessing.apply + sorted()/slice oracle on real queries with forced page sizes",
+        text="applyPage_spec, iterate_spec and paging_concat (iterating pages of any size k>=1 through apply with its mutable limit yields exactly the post-filtered rows cut at the limit, incl. limit 0 and limits hit mid-page or at a boundary), limit_prefix, count_eq_length, any_iff_nonempty, sortBy_perm/sortBy_sorted are proved in Lean 4 for all row lists and predicates. The model of apply is compared page by page (yielded rows and remaining limit) with the real Postprocessing.apply on synthetic region rows; real queries (spatial join with post-filtering and plain joins) are run with raw page sizes 1-7, order_by lists incl. NULL metadata and limits around boundaries, and compared with Python sorted()/slicing, count() and any().",
+        note="Trusted: Lean kernel; harness; SQLite ORDER BY/LIMIT for the branch without post-processing (checked by the oracle only); sphgeom overlap for the boxes used.",
+        design="DESIGN.md §5 C16",
+    ),
 }
 
 NOT_YET = {}
